@@ -52,6 +52,23 @@ def searches(ref, W, k):
                 break
 
 
+def symbol_acceptance(ref, only=None):
+    from spil import Sid
+    from mc import universe
+    out = []
+    conc = universe.one_per_type(ref)
+    for typ in ref.types:
+        segs = conc[typ].split("/")
+        for i, (k, p) in enumerate(ref.templates[typ]):
+            if only and [typ, k] != only:
+                continue
+            star = Sid(typ + ":" + "/".join(segs[:i] + ["*"] + segs[i + 1:]))
+            last = Sid(typ + ":" + "/".join(segs[:i] + [">"] + segs[i + 1:]))
+            if bool(star) != bool(last):
+                out.append(dict(signature="last-symbol-not-accepted-where-star-is/last", case=[typ, k], observed=[star.uri, bool(star), last.uri, bool(last)], expected="both typed"))
+    return out
+
+
 def relevant(sig):
     """C09 judges the '>' answers (and failures); what C11 owns (type-blind list matching) is not re-reported here."""
     return "/last" in sig or sig.startswith(("exception", "duplicates", "unexpected-SpilException", "local-and-server"))
@@ -143,6 +160,12 @@ def run_shard(sh):
         rec.case(cls, cls == "get_last:found", sample=[sh["universe"], "get_last", s, key])
         for x in v:
             rec.violation(x["signature"], "get_last", [sh["universe"], s, key], x["observed"], x["expected"])
+    # the statement reads a '>' as a '*' that is sorted afterwards: wherever the loaded configuration lets a '*' stand, a '>' must
+    # be able to stand too - otherwise entries that match the '*' reading can never be the answer
+    if sh["index"] == 0:
+        for v in symbol_acceptance(ref):
+            rec.violation(v["signature"], "symbols", v["case"], v["observed"], v["expected"])
+        rec.case("last/symbol-acceptance", True)
     rec.extra = {"universe": sh["universe"], "entities": len(W.leaves), "first_loaded": first}
     return worlds.tag_first(rec.result(), first)
 
@@ -152,6 +175,8 @@ def replay_case(kind, case):
     from mc import env
     ref = Conf()
     worlds.touch_first()
+    if kind == "symbols":
+        return symbol_acceptance(ref, only=case)
     W = worlds.World(ref, worlds.universes(ref, "thorough")[case[0]], case[0])
     W.materialize()
     env.reset()
